@@ -11,7 +11,7 @@ from .ops import bterm, kind, rterm, term, to_sfloat, wrap_bool, wrap_int, wrap_
 from .path import PathEnd, Unsupported
 from .values import (FIN, NAN, NINF, PINF, UNDEF, AnyV, BoundV, ClassV, DequeV, EnumMap, EnumSet, EnumVal,
                      EnvFn, ExtV, FuncV, LambdaV, LockV, ModuleV, Obj, Ref, SFloat, SOpt, Sym, TimeDelta,
-                     fresh_name, PySet, GenExp, MethodRef)
+                     fresh_name, PySet, GenExp, MethodRef, Absentable, SeqV)
 
 
 class PyRaise(Exception):
@@ -523,6 +523,8 @@ class ExprMixin:
     def eq(self, a, b):
         if a is None or b is None:
             return self.is_(a, b)
+        if isinstance(a, ExtV) or isinstance(b, ExtV):
+            return isinstance(a, ExtV) and isinstance(b, ExtV) and a.name == b.name
         if isinstance(a, SOpt) or isinstance(b, SOpt):
             na, va = ops.opt_parts(a)
             nb, vb = ops.opt_parts(b)
@@ -769,7 +771,14 @@ class ExprMixin:
             if attr in obj.fields:
                 for h in self.field_hooks:
                     h(self, obj, attr, "read", node)
-                return obj.fields[attr]
+                fv = obj.fields[attr]
+                if isinstance(fv, Absentable):
+                    if self.path.branch(fv.absent):
+                        if default is not UNDEF:
+                            return default
+                        self.raise_builtin("AttributeError", node)
+                    return fv.val
+                return fv
             if obj.cls is not None:
                 meth = self.tree.find_method(obj.cls, attr)
                 if meth is not None:
@@ -888,6 +897,8 @@ class ExprMixin:
     def iterate(self, v):
         if isinstance(v, PySet):
             return list(v.items)
+        if isinstance(v, SeqV):
+            raise Unsupported("iteration over a symbolic sequence outside a for-loop with invariant")
         if isinstance(v, (tuple, list)):
             return list(v)
         if isinstance(v, dict):
